@@ -18,19 +18,19 @@ NO_HESS = {5, 6, 7, 14, 15}
 # per property: family, (group, scalar) list and sample count per tier, chunk size (lines per TLC process)
 PLAN = {
     "C01": dict(fam="c01", chunk=300,
-                quick=dict(n=22, gs=[(g, "d") for g in (0, 1, 2, 3, 4, 5, 6, 7, 9, 10, 11)] + [(g, "f") for g in (0, 1, 2, 3, 4, 5, 6)]),
+                quick=dict(n=44, gs=[(g, "d") for g in (0, 1, 2, 3, 4, 5, 6, 7, 9, 10, 11)] + [(g, "f") for g in (0, 1, 2, 3, 4, 5, 6)]),
                 thorough=dict(n=660, gs=[(g, "d") for g in range(16)] + [(g, "f") for g in range(12)])),
     "C02": dict(fam="c02", chunk=100,
-                quick=dict(n=39, gs=[(g, "d") for g in (0, 1, 2, 3, 4, 5, 6, 10)] + [(g, "f") for g in (0, 1, 2, 3, 4, 5, 6)]),
+                quick=dict(n=78, gs=[(g, "d") for g in (0, 1, 2, 3, 4, 5, 6, 10)] + [(g, "f") for g in (0, 1, 2, 3, 4, 5, 6)]),
                 thorough=dict(n=1560, gs=[(g, "d") for g in range(16)] + [(g, "f") for g in range(12)])),
     "C03": dict(fam="c03", chunk=100,
-                quick=dict(n=22, gs=[(g, "d") for g in (0, 1, 2, 3, 4, 5, 6, 8, 10, 11, 12)] + [(g, "f") for g in (1, 2, 3, 5)]),
+                quick=dict(n=44, gs=[(g, "d") for g in (0, 1, 2, 3, 4, 5, 6, 8, 10, 11, 12)] + [(g, "f") for g in (1, 2, 3, 5)]),
                 thorough=dict(n=660, gs=[(g, "d") for g in range(18)] + [(g, "f") for g in range(12)])),
     "C04": dict(fam="c04", chunk=48,
-                quick=dict(n=39, gs=[(g, "d") for g in (0, 1, 2, 3, 4, 5, 6, 11)] + [(g, "f") for g in (1, 2, 3, 5)]),
+                quick=dict(n=78, gs=[(g, "d") for g in (0, 1, 2, 3, 4, 5, 6, 11)] + [(g, "f") for g in (1, 2, 3, 5)]),
                 thorough=dict(n=780, gs=[(g, "d") for g in range(16)] + [(g, "f") for g in range(8)])),
     "C05": dict(fam="c05", chunk=5,
-                quick=dict(n=27, gs=[(g, "d") for g in (0, 1, 2, 3, 4, 9)]),
+                quick=dict(n=54, gs=[(g, "d") for g in (0, 1, 2, 3, 4, 9, 11)]),
                 thorough=dict(n=270, gs=[(g, "d") for g in (0, 1, 2, 3, 4, 8, 9, 10, 11, 12, 13)])),
 }
 
